@@ -11,7 +11,7 @@ WorkK == 4       \* cmps <= WorkK * (N+M+1) * (D+1)
 ExpiryK == 4     \* cmps after the first expired probe <= ExpiryK * (N+M+1)
 
 WorkBound(N, M, D, cmps) == cmps <= WorkK * (N + M + 1) * (D + 1)
-GapK == 4        \* cmps between two consecutive deadline checks <= GapK * (N+M+1)
+GapK == 8        \* cmps between two consecutive deadline checks <= GapK * (N+M+1)
 GapBound(N, M, gap) == gap <= GapK * (N + M + 1)
 AfterExpiryBound(N, M, cmpsAtExpiry, cmpsAtReturn) ==
   cmpsAtReturn - cmpsAtExpiry <= ExpiryK * (N + M + 1)
